@@ -592,7 +592,11 @@ pub fn run_random<D: Driver>(opts: &RunOpts) -> Outcome {
                 let is_target = |f: &Fail| opts.prop == f.prop || opts.prop == "all";
                 // (a MODEL note alone - hooked state differs from the reference model while every API-visible
                 // result still agreed - does not end the history: what the API does next is still evidence)
-                let drift = fs.iter().any(|f| !is_target(f) && !["C01", "C17", "C18", "C20", "MODEL"].contains(&f.prop));
+                // Only the mpmc reference model *infers* unobservable state (which parked sender was accepted,
+                // what the buffer holds); the other drivers' models are plain facts about what the harness
+                // itself did and saw (guards held, permit ledger, latches, deadlines, publication log), which
+                // stay true after a failed predicate: there, another property's failure never ends the history.
+                let drift = D::name().starts_with("mpmc") && fs.iter().any(|f| !is_target(f) && !["C01", "C17", "C18", "C20", "MODEL"].contains(&f.prop));
                 let fatal = drift || fs.iter().any(|f| f.pred == "no-panic-on-contract-respecting-history" || (f.pred == "queue-walk-sound" && f.detail.contains("dangling")));
                 tainted += 1;
                 if target_hit || fatal || stop || tainted > 40 {
